@@ -42,7 +42,7 @@ ASSUMPTIONS = [
 R_VALUES = [1.42, 1.5, 1.7, 2.0, 3.0, 10.0]
 R_EDGE = [1.415, 1.4150000000000003, 1.0, 1.4143, 64.0]
 GROUND = "_"
-TAGS = ["dsp", "bram", "lut"]
+TAGS = ["dsp", "bram", "lut", "dsp", "bram", "__", "_g", "G_", "ground", "null", "dsp1", "dsp1_0"]
 
 
 # ---------------------------------------------------------------- generators
@@ -91,6 +91,7 @@ def gen_layout(rng, maxk=4):
             continue
         placed.append((bx, rng.choice(["#", "#", "fixed", "tag", "tag", "tag"])))
     regions, fixed = [], []
+    rng.shuffle(placed)                      # the order in which the regions are listed is arbitrary
     for bx, kind in placed:
         if kind == "fixed":
             fixed.append(rect_dict(*bx))
@@ -100,13 +101,22 @@ def gen_layout(rng, maxk=4):
 
 
 def gen_r(rng):
-    return rng.choice(R_VALUES) if rng.random() < 0.93 else rng.choice(R_EDGE)
+    r = rng.choice(R_VALUES) if rng.random() < 0.93 else rng.choice(R_EDGE)
+    if float(r).is_integer() and rng.random() < 0.2:
+        return int(r)                        # the limit given as an int (2 instead of 2.0)
+    return r
+
+
+def rarg(r):
+    return r if isinstance(r, int) else float(r)
 
 
 def gen_n(rng):
     x = rng.random()
     if x < 0.03:
         return rng.choice([0, -1, -7])
+    if x < 0.045:
+        return rng.choice([65, 100, 127, 128, 129])         # beyond the usual sizes
     if x < 0.35:
         return rng.randrange(1, 9)
     return rng.randrange(1, 65)
@@ -143,9 +153,11 @@ def gen_history(rng):
     ops = []
     if pat == "splits":
         r = gen_r(rng)
+        n = rng.choice([1, 2, 3, 5, 8])
         for _ in range(rng.randrange(2, 5)):
-            ops.append(["split", r, rng.choice([1, 2, 3, 5, 8, 13, 21, 34])])
+            ops.append(["split", r, n])
             r = rng.choice([r, r, gen_r(rng)])
+            n = rng.choice([n, n + 1, n - 1 if n > 1 else 1, 2 * n, rng.choice([1, 2, 3, 5, 8, 13, 21, 34])])
     elif pat == "grid-first":
         ops = [gen_op(rng, "grid")] + [gen_op(rng, "split") for _ in range(rng.randrange(1, 4))]
     elif pat == "split1-grid-split":
@@ -202,6 +214,8 @@ def gen_case(rng):
             W, H, regions, fixed = gen_layout(rng, maxk=2)
         nrows = rng.choice([0, -1, 9, 12]) if rng.random() < 0.06 else rng.randrange(1, 9)
         ncols = rng.choice([0, -2, 10]) if rng.random() < 0.06 else rng.randrange(1, 9)
+        if rng.random() < 0.04:
+            nrows, ncols = rng.choice([(10, 10), (16, 16), (1, 100), (33, 2), (9, 7), (17, 15)])
         return {"kind": "grid", "W": W, "H": H, "regions": regions, "fixed": fixed, "nrows": nrows, "ncols": ncols}
     # direct call of split_rectangles on a list of rectangles with arbitrary attributes
     W, H, regions, fixed = gen_layout(rng, maxk=5)
@@ -329,7 +343,7 @@ def run_history(case):
                 SKIPPED["float-boundary"] += 1
                 obs["cut"] = i
                 break
-            call = lambda: die.split_refinable_regions(float(op[1]), op[2])
+            call = lambda: die.split_refinable_regions(rarg(op[1]), op[2])
         elif op[0] == "grid":
             call = lambda: die.initial_grid(op[1], op[2])
         else:
@@ -364,7 +378,7 @@ def run_impl_(case):
                 return {"status": "boundary"}
             rects = [fr.mk_rect(d) for d in case["rects"]]
             try:
-                out = split_rectangles(rects, float(case["r"]), case["n"])
+                out = split_rectangles(rects, rarg(case["r"]), case["n"])
             except AssertionError:
                 return {"status": "assert"}
             except IndexError:
@@ -383,7 +397,7 @@ def run_impl_(case):
             return {"status": "boundary"}
         try:
             if case["kind"] == "split":
-                die.split_refinable_regions(float(case["r"]), case["n"])
+                die.split_refinable_regions(rarg(case["r"]), case["n"])
             else:
                 die.initial_grid(case["nrows"], case["ncols"])
             status = "ok"
@@ -708,7 +722,7 @@ def dist_key(case):
         return "history/" + "-".join(op[0][0] for op in case["ops"])[:9]
     if case["kind"] == "grid":
         return "grid"
-    return f"{case['kind']}/r={case['r']}"
+    return f"{case['kind']}/r={float(case['r'])}"
 
 
 def nontrivial(case):
